@@ -1,5 +1,5 @@
 (* C02 -- Variable tree mirrors the module tree; init, apply and shape-only init agree.  (PARTIAL: see the evidence notes) *)
-From Flaxm Require Import Lib.Harness Model.Filters Model.Linen Proofs.Linen Proofs.LinenInit Proofs.LinenChild.
+From Flaxm Require Import Lib.Harness Model.Filters Model.Linen Proofs.Linen Proofs.LinenInit Proofs.LinenChild Proofs.LinenShape.
 
 (* a name clash between submodules, between a submodule and a variable, or between two variables of one collection
    raises NameInUse; the same name in two different collections is allowed *)
@@ -68,6 +68,31 @@ Example C02_init_apply_example :
                   | Err _ => False end
   | Err _ => False end.
 Proof. vm_compute. repeat split; reflexivity. Qed.
+
+(* shape-only initialisation agrees with concrete init: nothing a module program decides depends on the values arrays hold,
+   only on their shapes.  For every program, `mutable`, streams, inputs x x' of the same shape and variable trees of the same
+   structure and shapes (veq / trel: names and lengths agree, values are arbitrary): init / apply on the two fail with the
+   same error, or succeed with outputs of the same shape, variable trees of the same structure and shapes, the same rng
+   counters and the same trace of keys and parameter initialisations.  A shape-only run (eval_shape, jit or lazy_init of
+   init) evaluates the program on an abstract array that carries exactly the shape, i.e. it is one of these runs. *)
+Theorem C02_shape_only_init_agrees : forall ev top vars vars' x x', veq x x' -> trel vars vars' ->
+  rrel outrel (apply_m ev top vars x) (apply_m ev top vars' x').
+Proof. exact shape_only_agrees. Qed.
+Print Assumptions C02_shape_only_init_agrees.
+Theorem C02_shape_only_any_scope : forall ev fuel cls p x x' s s', veq x x' -> srel s s' ->
+  rrel outrel (run_call fuel ev cls p x s) (run_call fuel ev cls p x' s').
+Proof. exact run_call_shape. Qed.
+Print Assumptions C02_shape_only_any_scope.
+(* non-vacuity: an input-shaped parameter (like a Dense kernel), sow, perturb and a shared child; zeros vs data *)
+Example C02_shape_only_example :
+  let leaf : mclass := ([SParam 1 (NExp 0) 0 2; SVar 2 5 (NExp 1) 1 7; SSow 6 (NExp 2) (EMul (ELocal 1) EInput); SPerturb 3 (NExp 3) (EMul (ELocal 1) EInput)],
+                        EAdd (ELocal 3) (ELocal 2)) in
+  let top : mclass := ([SChild 1 7 None; SCall 1 1 EInput; SCall 2 1 (ELocal 1)], ELocal 2) in
+  let ev := mkEnv (FBool true) [0%N] [(7%N, leaf); (0%N, top)] 0 4 in
+  match apply_m ev 0 [] [3; -1; 4]%Z, apply_m ev 0 [] [0; 0; 0]%Z with
+  | Ok (y, s1), Ok (y', s2) => length y = 3 /\ length y' = 3 /\ y <> y' /\ s_trace s1 = s_trace s2 /\ s_vars s1 <> s_vars s2
+  | _, _ => False end.
+Proof. vm_compute. repeat split; try reflexivity; discriminate. Qed.
 
 (* each submodule's variables sit under the submodule's name, so a submodule applied on its own sub-tree computes what it
    computes inside its parent: for every program, class, scope path p, input and variable tree V in which p is a scope
